@@ -176,11 +176,11 @@ def explore(prog, fn_name, extra_models=(), extra_step=()):
 
 
 def explore_fn(prog, fn_path, self_label="self", step_only=(), extra_models=(), self_value=None, memo_shared=False,
-               concrete_iters=False, log_asserts=False, max_paths=None, opaque=()):
+               concrete_iters=False, log_asserts=False, max_paths=None, opaque=(), adaptor_loops=False):
     """-> (paths, info): explore any function; a `self` reference argument points to a symbolic object
     of its type named `self_label`; other reference arguments point to symbolic cells named after the
     parameter; value arguments are symbolic values named after the parameter."""
-    ck = (id(prog), fn_path, self_label, tuple(step_only), memo_shared, concrete_iters, log_asserts, tuple(opaque))
+    ck = (id(prog), fn_path, self_label, tuple(step_only), memo_shared, concrete_iters, log_asserts, tuple(opaque), adaptor_loops)
     if ck in _cache and not extra_models and self_value is None:
         return _cache[ck]
     body = prog.body(fn_path)
@@ -188,6 +188,7 @@ def explore_fn(prog, fn_path, self_label="self", step_only=(), extra_models=(), 
     it.memo_shared = memo_shared
     it.opaque = list(it.opaque) + [re.compile(p_) for p_ in opaque]      # callees kept opaque even if they are new helpers
     it.concrete_iters = concrete_iters
+    it.adaptor_loops = adaptor_loops      # run find / fold / .. over an iterator whose next() is opaque as a fixpoint loop
     it.log_asserts = log_asserts
     if max_paths is not None:
         it.max_paths = max_paths
